@@ -72,6 +72,14 @@ def swapAt {α} (l : List α) (a b : Nat) : List α :=
   | some x, some y => (l.set a y).set b x
   | _, _ => l
 
+/-- `c` surplus positions: unused in-range positions first, then out-of-range ones (`addidxn` in c10.rs) -/
+def surplus (used : List Nat) (n : Nat) : Nat → Nat → Nat → List Nat
+  | 0, _, _ => []
+  | _, _, 0 => []
+  | c + 1, cand, fuel + 1 =>
+    if cand < n ∧ used.contains cand then surplus used n (c + 1) (cand + 1) fuel
+    else cand :: surplus used n c (cand + 1) fuel
+
 /-- the mutations of `apply` in c10.rs; `none` = not applicable (`bad-op`) -/
 def applyMut (o : Opening) (m : List String) : Option Opening :=
   match m with
@@ -102,6 +110,28 @@ def applyMut (o : Opening) (m : List String) : Option Opening :=
     let r ← u64? r
     let row ← o.nodes[r]?
     some { o with nodes := o.nodes.set r (row ++ [extra]) }
+  | ["addnode", r, c] => do
+    let r ← u64? r
+    let c ← u64? c
+    let row ← o.nodes[r]?
+    if c ≥ 1 ∧ c ≤ 70000 then some { o with nodes := o.nodes.set r (row ++ List.replicate c extra) } else none
+  | ["dropnode", r, c] => do
+    let r ← u64? r
+    let c ← u64? c
+    let row ← o.nodes[r]?
+    if c ≥ 1 ∧ c ≤ row.length then some { o with nodes := o.nodes.set r (row.take (row.length - c)) } else none
+  | ["addleaf", c] => do
+    let c ← u64? c
+    if c ≥ 1 ∧ c ≤ 70000 then some { o with leaves := o.leaves ++ List.replicate c extra } else none
+  | ["addidxn", c] => do
+    let c ← u64? c
+    if c ≥ 1 ∧ c ≤ 70000 then
+      let n := 2 ^ (min o.depth 20)
+      some { o with idxs := o.idxs ++ surplus o.idxs n c 0 (c + o.idxs.length + 1) }
+    else none
+  | ["dropidxn", c] => do
+    let c ← u64? c
+    if c ≥ 1 ∧ c ≤ o.idxs.length then some { o with idxs := o.idxs.take (o.idxs.length - c) } else none
   | ["droprow", r] => do
     let r ← u64? r
     let _ ← o.nodes[r]?
@@ -312,31 +342,109 @@ def toyCodec : Codec Nat :=
   { enc := leBytes8,
     dec := fun bytes => if bytes.length < 8 then .error .eof else .ok (ofLeBytes (bytes.take 8), bytes.drop 8) }
 
+def resizeTo {α} (l : List α) (n : Nat) (x : α) : List α :=
+  if n ≤ l.length then l.take n else l ++ List.replicate (n - l.length) x
+
 def handleSer (t : List String) : String :=
   match openBatch t with
   | .error s => s
   | .ok (_, op, m) =>
-    match serializeNodes toyCodec op.proof with
-    | .panic _ => "ser=panic"
-    | .err _ => "ser=panic"
-    | .ok bytes =>
-      let full := bytes.length
-      let mutated : Option (List Nat) :=
-        match m with
-        | ["none"] => some bytes
-        | ["extra"] => some (bytes ++ [7])
-        | ["cut", k] =>
-          match u64? k with
-          | some k => if k < full then some (bytes.take k) else none
-          | none => none
-        | _ => none
-      match mutated with
-      | none => "bad-op"
-      | some bs =>
-        match deserialize toyCodec bs op.leaves op.depth with
-        | .error _ => s!"len={full} de=err"
-        | .ok (p2, rest) =>
-          s!"len={full} de=ok same={boolStr (decide (p2 = op.proof))} rest={boolStr (!rest.isEmpty)}"
+    -- structural mutants: (nodes to serialize, leaves and depth given to deserialize)
+    let st : Option (List (List Nat) × List Nat × Nat) :=
+      match m with
+      | ["none"] => some (op.nodes, op.leaves, op.depth)
+      | ["cut", _] => some (op.nodes, op.leaves, op.depth)
+      | ["extra"] => some (op.nodes, op.leaves, op.depth)
+      | ["ff"] => some (op.nodes, op.leaves, op.depth)
+      | ["depth0"] => some (op.nodes, op.leaves, 0)
+      | ["noleaves"] => some (op.nodes, [], op.depth)
+      | ["leaves", n] => do
+        let n ← u64? n
+        if n ≤ 70000 then some (op.nodes, resizeTo op.leaves n extra, op.depth) else none
+      | ["rows", n] => do
+        let n ← u64? n
+        if n ≥ op.nodes.length ∧ n ≤ 70000 then some (resizeTo op.nodes n [], op.leaves, op.depth) else none
+      | ["rowlen", r, n] => do
+        let r ← u64? r
+        let n ← u64? n
+        let row ← op.nodes[r]?
+        if n ≥ row.length ∧ n ≤ 70000 then some (op.nodes.set r (resizeTo row n extra), op.leaves, op.depth) else none
+      | ["droprowc"] => if op.nodes.isEmpty then none else some (op.nodes.dropLast, op.leaves, op.depth)
+      | ["dropnodec", r] => do
+        let r ← u64? r
+        let row ← op.nodes[r]?
+        if row.isEmpty then none else some (op.nodes.set r row.dropLast, op.leaves, op.depth)
+      | _ => none
+    match st with
+    | none => "bad-op"
+    | some (nodes, dl, dd) =>
+      match serializeNodes toyCodec { leaves := op.leaves, nodes := nodes, depth := op.depth } with
+      | .panic _ => "ser=panic"
+      | .err _ => "ser=panic"
+      | .ok bytes =>
+        let full := bytes.length
+        let mutated : Option (List Nat) :=
+          match m with
+          | ["extra"] => some (bytes ++ [7])
+          | ["cut", k] =>
+            match u64? k with
+            | some k => if k < full then some (bytes.take k) else none
+            | none => none
+          | ["ff"] =>
+            match nodes with
+            | (_ :: _) :: _ => some (bytes.take 2 ++ List.replicate 8 255 ++ bytes.drop 10)
+            | _ => none
+          | _ => some bytes
+        match mutated with
+        | none => "bad-op"
+        | some bs =>
+          match deserialize toyCodec bs dl dd with
+          | .error _ => s!"len={full} de=err"
+          | .ok (p2, rest) =>
+            let same := decide (p2 = ({ leaves := dl, nodes := nodes, depth := dd } : BatchProof Nat))
+            s!"len={full} de=ok same={boolStr same} rest={boolStr (!rest.isEmpty)}"
+
+/-- `from`: `from_paths` on the paths `prove` produces, with malformed inputs -/
+def handleFrom (t : List String) : String :=
+  match head? t, t with
+  | some (depth, sd), _ :: _ :: is :: m =>
+    match idxs? is, mkTree depth sd with
+    | some idxs, .ok tr =>
+      match idxs.mapM (fun i => match prove tr i with | .ok p => some p | _ => none) with
+      | none => "prove=err"
+      | some paths =>
+        let st : Option (List (List Nat) × List Nat) :=
+          match m with
+          | ["none"] => some (paths, idxs)
+          | ["droppath"] => if paths.isEmpty then none else some (paths.dropLast, idxs)
+          | ["addpath"] => paths.getLast?.map (fun x => (paths ++ [x], idxs))
+          | ["dupidx"] =>
+            if idxs.length < 2 then none else some (paths, idxs.set (idxs.length - 1) (idxs.getD 0 0))
+          | ["short", k] => do
+            let k ← u64? k
+            let q ← paths[k]?
+            some (paths.set k (q.take 1), idxs)
+          | ["long", k] => do
+            let k ← u64? k
+            let q ← paths[k]?
+            some (paths.set k (q ++ [extra]), idxs)
+          | ["alllen", l] => do
+            let l ← u64? l
+            if l ≤ 600 then some (paths.map (fun q => resizeTo q l extra), idxs) else none
+          | ["nopaths"] => some ([], [])
+          | ["many", c] => do
+            let c ← u64? c
+            let x ← paths.head?
+            if c ≤ 600 then some (List.replicate c x, List.range c) else none
+          | _ => none
+        match st with
+        | none => "bad-op"
+        | some (ps, is) =>
+          match fromPaths toy ps is with
+          | .ok p2 => s!"from=ok lens={lensStr p2.nodes} d={p2.depth} n={p2.leaves.length} h={proofCks p2.leaves p2.nodes}"
+          | _ => "from=panic"
+    | _, _ => "bad-op"
+  | _, _ => "bad-op"
 
 def realHashers : List String :=
   ["blake3_256", "blake3_192", "sha3_256", "rp64_256", "rpjive64_256", "rp62_248"]
@@ -354,6 +462,7 @@ def handle (toks : List String) : String :=
       | "paths" => handlePaths rest
       | "ser" => handleSer rest
       | "tree" => handleTree rest
+      | "from" => handleFrom rest
       | _ => "bad-op"
   | _ => "bad-op"
 
